@@ -79,7 +79,7 @@ def _value_for(item_type, labels, tag, valuation):
 
 
 def _accessor(geom, tag, valuation, rec):
-    labels = geom.get("items") if isinstance(geom.get("items"), list) else None
+    labels = list(geom.get("items")) if isinstance(geom.get("items"), list) else None     # the item's own list (as each accessor gets from its table class)
     t = geom["type"]
     a = Obj(None, {"tag": tag, "type": t, "items": labels, "value": _value_for(t, labels, tag, valuation), "pos": geom.get("pos"), "length": geom.get("length"),
                    "read_write": geom.get("read_write")}, name=f"acc<{tag}>")
@@ -335,6 +335,48 @@ def out_of_list_states(repo, T, valuation="mixed"):
                 for a, v in saved:
                     a.attrs["value"] = v
         return bad, n
+    res = {}
+    for plat, (_n, cfg, log) in sorted(best.items()):
+        for facade_cls in FACADES:
+            r, _t, extra = build_one(repo, T, cfg, log, valuation, facade_cls, inspect=inspect)
+            res[(plat, cfg.stem, log.stem, facade_cls)] = (r, extra)
+    return res
+
+
+def labels_after_reads(repo, T, valuation="mixed"):
+    """For the richest shipped (config, log) pair of every platform and both facades: the label list of every item the
+    construction looked at is noted, then every read-only member of every automation device (properties - `modes`
+    included -, __str__, __repr__) is read, as a front end does; the label lists must be what they were.
+    -> {(platform, cfg, log, facade): (build result, [(item, before, after)], items watched)}"""
+    best = {}
+    for _p, cfg, log in T.combos():
+        n = len(set(cfg.keys()) | set(log.keys()))
+        if n > best.get(cfg.platform, (0,))[0]:
+            best[cfg.platform] = (n, cfg, log)
+
+    def inspect(it, fac):
+        spa = it.getattr(fac, "spa") if True else None
+        accs = it.getattr(spa, "accessors") if isinstance(spa, Obj) else {}
+        watched = {}
+        for k in list(dict.keys(accs)):
+            v = dict.__getitem__(accs, k)
+            if isinstance(v, Obj) and isinstance(v.attrs.get("items"), list):
+                watched[k] = (v, tuple(v.attrs["items"]))
+        for d in list(it.getattr(fac, "all_automation_devices")):
+            if not (isinstance(d, Obj) and d.cls is not None):
+                continue
+            members = [nm for nm, f in repo.all_methods(d.cls).items() if f.is_property] + ["__str__", "__repr__"]
+            for nm in sorted(set(members)):
+                f = repo.method(d.cls.short, nm, required=False)
+                if f is None:
+                    continue
+                try:
+                    it.steps = 0
+                    it.call(f, d, [])
+                except (PyRaise, Undecided):
+                    pass      # what a member returns or raises is C11's subject; here: what it leaves behind
+        changed = [(k, list(before), list(v.attrs["items"])) for k, (v, before) in sorted(watched.items()) if tuple(v.attrs["items"]) != before]
+        return changed, len(watched)
     res = {}
     for plat, (_n, cfg, log) in sorted(best.items()):
         for facade_cls in FACADES:
